@@ -140,6 +140,9 @@ impl World {
     { unimplemented!() }
     #[verifier::external_body]
     pub fn insert_resource<R>(&mut self, r: R) ensures *final(self) == ins_eff::<R>(*old(self), r) { unimplemented!() }
+    // World::contains_resource::<R>(): whether a resource of type R is in the world (reads only)
+    #[verifier::external_body]
+    pub fn contains_resource<R>(&self) -> (b: bool) ensures b == (self.res::<R>() is Some) { unimplemented!() }
 }
 
 //@fn src/ecs/syscall.rs - syscall_with_validation ret=r
